@@ -78,7 +78,13 @@ RenderE == renders' = renders + 1 /\ UNCHANGED <<entered, exited, tot, run, comp
 Ev(name, k, amt) == [e |-> name, sec |-> k[1], sc |-> k[2], amt |-> amt]
 NoKey == <<"", 0>>
 Enter == Holds(EnterG) /\ EnterE /\ hist' = Append(hist, Ev("enter", NoKey, 0))
-Total(k, amt) == Holds(TotalG(k, amt)) /\ tot[k] + amt <= MaxTotal /\ Started(k) = 0 /\ TotalE(k, amt) /\ hist' = Append(hist, Ev("total", k, amt))
+\* uberjob announces all totals of a section before anything in that section is reported running
+\* (_update_stale_totals / _update_run_totals): the generator produces only such sequences; the
+\* bundled console display relies on it (a section that was shown complete is not printed again)
+Total(k, amt) ==
+  /\ Holds(TotalG(k, amt)) /\ tot[k] + amt <= MaxTotal
+  /\ \A s \in Scopes : Started(<<k[1], s>>) = 0
+  /\ TotalE(k, amt) /\ hist' = Append(hist, Ev("total", k, amt))
 DoRunning(k) == Holds(RunningG(k)) /\ RunningE(k) /\ hist' = Append(hist, Ev("running", k, 0))
 DoCompleted(k) == Holds(CompletedG(k)) /\ CompletedE(k) /\ hist' = Append(hist, Ev("completed", k, 0))
 DoFailed(k) == Holds(FailedG(k)) /\ FailedE(k) /\ hist' = Append(hist, Ev("failed", k, 0))
